@@ -506,6 +506,10 @@ class Runner:
             if not sargs:
                 if not (y == x) or O.Snap(y).render != O.Snap(x).render:
                     viol.append(('C08', 'copy_eq', kind))
+                fl = lambda v: (v.is_formatting_valid(), v.is_formatting_parsable(), v.is_optimizable())
+                if fl(y) != fl(x):
+                    # a copy / conversion holds the same settings: what the flags say about them cannot change
+                    viol.append(('C15', 'flags_preserved', '%s of %r: (valid, parsable, optimizable) %r became %r' % (kind, x._s, fl(x), fl(y))))
             self.add_live(y)
             if kind in ('deepcopy', 'pickle') and not sargs:
                 self._concat_next = y
